@@ -18,6 +18,7 @@ class G:
         self.expect_msgs = {}     # key -> expected value of the template input
         self.expect_steps = {}    # step id -> expected to run
         self.env = {'root': {'g0': 1, 'g1': 2}}
+        self.penv = {'e0': 7}        # process env: the model's env section, then script assignments
         self.readers = readers
         self.declared_out = {}    # irq key -> (declared name, expected kept tag, dropped name)
 
@@ -100,6 +101,36 @@ class G:
             n = self.r.choice(self.names(scope))
             a.update(uses='acts.transform.set', params={n: None})
             self.write(scope, n, None)
+        elif k == 'W9':
+            # process env assigned by a script
+            n = self.r.choice(['e0', 'e1', 'e2'])
+            t = self.newtag()
+            a.update(uses='acts.transform.code', params=f'$env.{n} = {t};')
+            self.penv[n] = t
+        elif k == 'W10':
+            # ... by a script that fails afterwards; the act's own catch-all (no steps) takes the error
+            n = self.r.choice(['e0', 'e1', 'e2'])
+            t = self.newtag()
+            a.update(uses='acts.transform.code', params=f'$env.{n} = {t}; throw new Error("after env");', catches=[{'steps': []}])
+            self.penv[n] = t
+        elif k == 'W11':
+            # one answer carrying two variables that are held by two different enclosing tasks
+            root_n = self.r.choice(list(self.env['root']))
+            loc = list(self.env.get(scope, {})) if scope else []
+            t, t2 = self.newtag(), self.newtag()
+            key = 'w' + a['id']
+            a.update(uses=IRQ, key=key)
+            opts_ = {root_n: t}
+            self.write(scope, root_n, t)
+            if loc:
+                opts_[loc[0]] = t2
+                self.write(scope, loc[0], t2)
+            self.rules.append({'match': {'key': key}, 'action': 'next', 'options': opts_})
+        elif k == 'R5':
+            n = self.r.choice(['e0', 'e1', 'e2'])
+            p = 'p' + str(len(self.probes))
+            a.update(uses='acts.transform.code', params=f'$set("{p}", ($env.{n} === undefined || $env.{n} === null ? "undef" : $env.{n}));')
+            self.probes.append((p, 'R5', n, self.penv.get(n, 'undef')))
         elif k in ('R1', 'R4'):
             n = self.r.choice(self.names(scope, foreign=True) + ['__priv'])
             p = 'p' + str(len(self.probes))
@@ -148,15 +179,15 @@ class G:
         for p, _, _, _ in self.probes:
             inputs[p] = None
             outputs[p] = None
-        return {'id': 'm1', 'inputs': inputs, 'outputs': outputs, 'steps': steps}
+        return {'id': 'm1', 'env': {'e0': 7}, 'inputs': inputs, 'outputs': outputs, 'steps': steps}
 
 
 class DataFamily:
     name = 'data'
-    WRITERS = ['W1', 'W2', 'W3', 'W4', 'W5', 'W6', 'W7', 'W8']
+    WRITERS = ['W1', 'W2', 'W3', 'W4', 'W5', 'W6', 'W7', 'W8', 'W9', 'W10', 'W11']
 
     def gen(self, rng, idx, opts):
-        readers = opts.get('readers', ['R1', 'R2', 'R3', 'R4'])
+        readers = opts.get('readers', ['R1', 'R2', 'R3', 'R4', 'R5'])
         kinds = self.WRITERS + [r for r in readers if r != 'R3']
         g = G(rng, 100, readers)
         wf = g.wf(kinds)
@@ -164,7 +195,7 @@ class DataFamily:
         store = opts.get('store', 'mem')
         sc = {'id': '', 'family': 'data', 'sched': rt['flavor'], 'runtime': rt, 'engine': {'store': store, 'keep_processes': True}, 'models': [json.dumps(wf)],
               'responder': {'mode': 'quiescent', 'rules': g.rules}, 'ops': [{'op': 'start', 'mid': 'm1', 'vars': {'pid': 'p1'}}, {'op': 'run', 'snap': opts.get('snap', 'none')}, {'op': 'snapshot', 'level': opts.get('snap', 'live') if opts.get('snap', 'none') != 'none' else 'live'}]}
-        meta = {'wf': wf, 'probes': g.probes, 'msgs': g.expect_msgs, 'steps': g.expect_steps, 'root': dict(g.env['root']), 'sub': 'single'}
+        meta = {'penv': dict(g.penv), 'wf': wf, 'probes': g.probes, 'msgs': g.expect_msgs, 'steps': g.expect_steps, 'root': dict(g.env['root']), 'sub': 'single'}
         return {'scenarios': [sc], 'meta': meta, 'digest': digest(wf), 'nontrivial': len(g.probes) + len(g.expect_msgs) >= 1}
 
     def judge(self, c, opts, obs):
@@ -185,7 +216,7 @@ class DataFamily:
             if gv != expv:
                 scope = 'private-key' if name == '__priv' else 'root' if name in m['root'] else 'foreign-scope' if expv == 'undef' else 'step-local'
                 kind_ = 'stale' if isinstance(gv, int) and scope in ('root', 'step-local') and (not isinstance(expv, int) or gv < expv) else 'leak' if expv == 'undef' else 'other'
-                out.append(V('C07', 'read-your-writes', f"{ {'R1': 'script-global', 'R4': '$get'}[k]}:{scope}:{kind_}:{race}",
+                out.append(V('C07', 'read-your-writes', f"{ {'R1': 'script-global', 'R4': '$get', 'R5': '$env'}[k]}:{scope if k != 'R5' else 'process-env'}:{kind_}:{race}",
                              f"reader {k} of {name}: saw {gv!r}, the reference environment says {expv!r}", scenario=sid))
         for key, expv in m['msgs'].items():
             obs['c07.reads:R2'] += 1
@@ -200,6 +231,11 @@ class DataFamily:
             obs['c07.reads:R3'] += 1
             if fin.get(s_) != ('completed' if ok else 'skipped'):
                 out.append(V('C07', 'read-your-writes', f'step-condition:{race}', f"step {s_} with a condition on the current value ended {fin.get(s_)}, expected {'completed' if ok else 'skipped'}", scenario=sid))
+        procs = h.final_procs()
+        if 'p1' in procs and m.get('penv') is not None:
+            obs['c07.reads:ENV'] += 1
+            if procs['p1'].get('env') != m['penv']:
+                out.append(V('C07', 'process-env', '', f"process env at the end {procs['p1'].get('env')}, reference {m['penv']}", scenario=sid))
         for nm in ('g0', 'g1'):
             obs['c07.reads:OUT'] += 1
             if o.get(nm) != m['root'][nm]:
